@@ -7,20 +7,21 @@
                                            | SWait: PWaiting} ; SDeferUnlock = the PUnlock step on every exit
      expected_handleMediaPlaylist          the "case msn" function literal = frame FBlocking, the last one = FPlain;
                                            SDeferUnlock again covers every exit
-     expected_preloadHint                  frame FHint: SLock WITHOUT SDeferUnlock; the exit "SIf s.closed [SReturn]"
-                                           has no SUnlock before it (TLeak, finding F1); the normal path ends in SUnlock
-                                           (PUnlockCall)
+     expected_preloadHint                  frame FHint: SLock without SDeferUnlock; the exit on s.closed is
+                                           [SUnlock; SReturn] (TExit R500 through PUnlock); the normal path ends in
+                                           SUnlock (PUnlockCall), after which the part's handler is called (or 404)
      expected_rotateParts / rotateSegments WIdle -SLock-> WLocked -(Inner)-> WRotated -SUnlock-> WUnlocked -SBroadcast-> WIdle
-     expected_Close                        CLocked -SSetClosed-> CSet -SUnlock-> CUnlocked -SBroadcast-> CStreams 0,
-                                           then one SStreamClose per stream, each of which is the SSetClosed of
-                                           expected_streamClose - outside the mutex, after the broadcast (finding F2) *)
+     expected_Close                        CLocked -[SSetClosed; SRange streams [SSetClosed]]-> CSet (all closed flags,
+                                           under the mutex) -SUnlock-> CUnlocked -SBroadcast-> CStreams 0, then one
+                                           SStreamClose per stream; expected_streamClose contains no SSetClosed any more
+                                           (stream.close() only removes files) *)
 From Coq Require Import List String.
 From GoHls Require Import Model.MuxConcSkelIR.
 Import ListNotations.
 Local Open Scope string_scope.
 
 Definition expected_Close : list sk :=
-  [SLock; SSetClosed; SUnlock; SBroadcast; SHook "close:broadcasted"; SRange "m.streams" [SStreamClose]].
+  [SLock; SSetClosed; SRange "m.streams" [SSetClosed]; SUnlock; SBroadcast; SHook "close:broadcasted"; SRange "m.streams" [SStreamClose]].
 
 Definition expected_rotateParts : list sk :=
   [SLock; SUnlock; SHook "rotateParts:unlocked"; SIf "err != nil" [SReturn] []; SBroadcast; SReturn].
@@ -32,14 +33,14 @@ Definition expected_handleMultivariantPlaylist : list sk :=
   [SFunc [SLock; SDeferUnlock; SLoop [SIf "m.closed" [SReturn] []; SIf "m.streams[0].hasContent()" [SBreak] []; SHook "wait:multivariant"; SWait]; SIf "err != nil" [SReturn] []; SReturn]; SIf "buf == nil" [SReturn] []].
 
 Definition expected_handleMediaPlaylist : list sk :=
-  [SIf "s.variant == MuxerVariantLowLatency" [SIf "err != nil" [SReturn] []; SIf "case msn != """"" [SFunc [SLock; SDeferUnlock; SLoop [SIf "s.closed" [SReturn] []; SIf "msnint > (s.nextSegmentID+1) || msnint < (s.nextSegmentID-uint64(len(s.segments)-1))" [SReturn] []; SIf "s.hasContent() && s.hasPart(msnint, partint)" [SBreak] []; SHook "wait:blocking-reload"; SWait]; SIf "err != nil" [SReturn] []; SReturn]; SReturn] []; SIf "case part != """"" [SReturn] []] []; SFunc [SLock; SDeferUnlock; SLoop [SIf "s.closed" [SReturn] []; SIf "s.hasContent()" [SBreak] []; SHook "wait:media-playlist"; SWait]; SIf "err != nil" [SReturn] []; SReturn]].
+  [SIf "s.variant == MuxerVariantLowLatency" [SIf "err != nil" [SReturn] []; SIf "case msn != """"" [SFunc [SLock; SDeferUnlock; SLoop [SIf "s.closed" [SReturn] []; SIf "msnint > (s.nextSegmentID+1) || msnint < (s.nextSegmentID-uint64(len(s.segments)-1))" [SReturn] []; SIf "s.hasContent() && ((part != """" && s.hasPart(msnint, partint)) || (part == """" && msnint < s.nextSegmentID))" [SBreak] []; SHook "wait:blocking-reload"; SWait]; SIf "err != nil" [SReturn] []; SReturn]; SReturn] []; SIf "case part != """"" [SReturn] []] []; SFunc [SLock; SDeferUnlock; SLoop [SIf "s.closed" [SReturn] []; SIf "s.hasContent()" [SBreak] []; SHook "wait:media-playlist"; SWait]; SIf "err != nil" [SReturn] []; SReturn]].
 
 Definition expected_preloadHint : list sk :=
-  [SLock; SLoop [SIf "s.closed" [SReturn] []; SIf "s.nextPartID > capturePartID" [SBreak] []; SHook "wait:preload-hint"; SWait]; SUnlock].
+  [SLock; SLoop [SIf "s.closed" [SUnlock; SReturn] []; SIf "s.nextPartID > capturePartID" [SBreak] []; SHook "wait:preload-hint"; SWait]; SUnlock].
 
 Definition expected_serverHandle : list sk :=
   [SRLock; SRUnlock; SHook "server:looked-up"].
 
 Definition expected_streamClose : list sk :=
-  [SSetClosed].
+  [].
 
